@@ -398,12 +398,12 @@ pub fn run(cfg: &Cfg, rep: &mut Report) {
             other => ctx.violation("C09:expression:text-differs", jobj(&[("value", jbytes(&ex)), ("text", jstr(&format!("{:?}", other.map(|t| show(&t)).map_err(|e| e.get_code()))))])),
         }
         // lists
-        let mx = if rng.chance(1, 10) { 51 } else { 6 };
+        let mx = if rng.chance(1, 100) && !ctx.cfg.tiny { 400 } else if rng.chance(1, 10) { 51 } else { 6 };
         let ln = rng.usize(mx);
         let list: Vec<i32> = (0..ln).map(|_| (rng.next() as i32) >> rng.usize(32)).collect();
         bump(ctx, 2);
         let want: Vec<u8> = list.iter().map(|v| v.to_string()).collect::<Vec<_>>().join(",").into_bytes();
-        let mut av: ArrayVec<i32, 64> = ArrayVec::new();
+        let mut av: ArrayVec<i32, 400> = ArrayVec::new();
         for v in &list {
             av.push(*v);
         }
